@@ -1878,3 +1878,90 @@ pub fn regenerate_id<'a>(id: &'a str, strategy: &'a IdStrategy) -> String {
         }
     }
 }
+
+#[cfg(stam_verif)]
+impl<HandleType> IdMap<HandleType>
+where
+    HandleType: Handle,
+{
+    /// Verification hook: the raw content of the id map, sorted by id
+    pub fn verif_dump(&self) -> Vec<(String, usize)> {
+        let mut v: Vec<(String, usize)> = self
+            .data
+            .iter()
+            .map(|(k, v)| (k.clone(), v.as_usize()))
+            .collect();
+        v.sort();
+        v
+    }
+}
+
+#[cfg(stam_verif)]
+impl<A, B> RelationMap<A, B>
+where
+    A: Handle,
+    B: Handle,
+{
+    /// Verification hook: raw content in stored order
+    pub(crate) fn verif_dump(&self) -> Vec<(usize, usize)> {
+        let mut v = Vec::new();
+        for (a, bs) in self.data.iter().enumerate() {
+            for b in bs {
+                v.push((a, b.as_usize()));
+            }
+        }
+        v
+    }
+}
+
+#[cfg(stam_verif)]
+impl<A, B> RelationBTreeMap<A, B>
+where
+    A: Handle,
+    B: Handle,
+{
+    /// Verification hook: raw content in stored order
+    pub(crate) fn verif_dump(&self) -> Vec<(usize, usize)> {
+        let mut v = Vec::new();
+        for (a, bs) in self.data.iter() {
+            for b in bs {
+                v.push((a.as_usize(), b.as_usize()));
+            }
+        }
+        v
+    }
+}
+
+#[cfg(stam_verif)]
+impl<A, B, C> TripleRelationMap<A, B, C>
+where
+    A: Handle,
+    B: Handle,
+    C: Handle,
+{
+    /// Verification hook: raw content in stored order
+    pub(crate) fn verif_dump(&self) -> Vec<(usize, usize, usize)> {
+        let mut v = Vec::new();
+        for (a, inner) in self.data.iter().enumerate() {
+            for (b, c) in inner.verif_dump() {
+                v.push((a, b, c));
+            }
+        }
+        v
+    }
+}
+
+#[cfg(stam_verif)]
+impl<A, B> ExclusiveRelationMap<A, B>
+where
+    A: Handle,
+    B: Handle,
+{
+    /// Verification hook: raw content in stored order
+    pub(crate) fn verif_dump(&self) -> Vec<(usize, usize)> {
+        self.data
+            .iter()
+            .map(|(a, b)| (a.as_usize(), b.as_usize()))
+            .collect()
+    }
+}
